@@ -262,6 +262,10 @@ func (b *Builder) stmt(s ast.Stmt) {
 		b.jump(done)
 		b.start(done)
 	case *ast.ForStmt:
+		if rs := b.counterAsRange(s); rs != nil {
+			b.rangeStmt(rs)
+			break
+		}
 		b.stmt(s.Init)
 		head, body, done, post := b.label(), b.label(), b.label(), b.label()
 		b.loopSeq++
@@ -1075,4 +1079,34 @@ func isVolatile(v *Var) bool { return len(v.Name) > 4 && v.Name[:4] == "vol:" }
 // staticCallee resolves the callee object of a call (nil for dynamic calls).
 func (b *Builder) staticCallee(call *ast.CallExpr) types.Object {
 	return typeutil.Callee(b.info, call)
+}
+
+// counterAsRange: `for i := 0; i < len(Y); i++ { body }` where the body assigns
+// neither i nor the root of Y is the range loop `for i := range Y { body }`.
+func (b *Builder) counterAsRange(s *ast.ForStmt) *ast.RangeStmt {
+	as, ok := s.Init.(*ast.AssignStmt)
+	if !ok || as.Tok != token.DEFINE || len(as.Lhs) != 1 || len(as.Rhs) != 1 {
+		return nil
+	}
+	id, ok := as.Lhs[0].(*ast.Ident)
+	if !ok {
+		return nil
+	}
+	if tv := b.info.Types[as.Rhs[0]]; tv.Value == nil || tv.Value.String() != "0" {
+		return nil
+	}
+	post, ok := s.Post.(*ast.IncDecStmt)
+	if !ok || post.Tok != token.INC {
+		return nil
+	}
+	y := b.P.counterLoopBound(b.info.Defs[id])
+	if y == nil {
+		return nil
+	}
+	switch b.info.TypeOf(y).Underlying().(type) {
+	case *types.Slice, *types.Array:
+	default:
+		return nil
+	}
+	return &ast.RangeStmt{For: s.For, Key: id, Tok: token.DEFINE, X: y, Body: s.Body}
 }
